@@ -203,9 +203,12 @@ def run_case(c):
     w.onboarded = c["onb"]
     w.echo_ok = c["echo"]
     if not c["echo"]:
-        k = (len(c.get("pin") or "") + len(c.get("answer") or "") + len(c["cmd"]) +
-             (1 if c["any_pin"] else 0)) % 4
-        w.echo_ok = [False, "hdr-cmd", "hdr-cla", "short"][k]
+        # the ways an echo can be wrong, spread over the grid (all five of them for every
+        # command x platform: the remaining dimensions decide which)
+        import zlib
+        k = zlib.crc32(repr(sorted((k_, repr(v_)) for k_, v_ in c.items()
+                                   if k_ not in ("plat", "cmd"))).encode()) % 5
+        w.echo_ok = [False, "hdr-cmd", "hdr-cla", "short", "long"][k]
     w.unlocked = False
     w.pin = DEVICE_PIN
     w.post_mode = SIGNER
@@ -230,10 +233,14 @@ def run_case(c):
     cmd = c["cmd"]
     pin_class = c["pin"]
     typed = []
+    # how often the operator mistypes before getting it right: 1..5 times, spread over the grid
+    n_bad = 1 + (MODES.index(c["mode"]) + PLATS.index(plat) + ONB.index(c["onb"]) +
+                 (1 if c["any_pin"] else 0) + len(cmd)) % 5
+    bad_entries = ["bad!", "1234567", "abc!1234", "12345678", "abcdefgh!"][:n_bad]
     if pin_class == "typed-valid":
         queue = [TYPED_OK]
     elif pin_class == "typed-bad-then-valid":
-        queue = ["bad!", "1234567", TYPED_OK]
+        queue = bad_entries + [TYPED_OK]
     else:
         queue = [TYPED_OK]
     if cmd == "changepin":
@@ -245,7 +252,7 @@ def run_case(c):
         if c["new_pin"] == "typed-valid":
             queue.append(TYPED_NEW)
         elif c["new_pin"] == "typed-bad-then-valid":
-            queue += ["bad!", "1234567", TYPED_NEW]
+            queue += bad_entries + [TYPED_NEW]
         queue = queue or [TYPED_OK]
     new_queue = list(queue)
 
@@ -325,6 +332,10 @@ def run_case(c):
     seedish = [e for e in apdus if e[2][1] in SEEDISH]
     pinish = [e for e in apdus if e[2][1] in PINISH]
     labels = ["cmd:" + cmd, "plat:" + plat]
+    if c["mode"] == BOOT and w.echo_ok is not True:
+        labels.append("echo:%s:%s:%s" % (w.echo_ok, cmd, plat))
+    if "typed-bad-then-valid" in (pin_class, c.get("new_pin")) and len(typed) > n_bad:
+        labels.append("mistyped:%d" % n_bad)
     if c.get("via") == "program":
         labels.append("via:program")
 
@@ -483,7 +494,7 @@ def run_case(c):
     return Out(labels, nt)
 
 
-REQUIRED_LABELS = {t: ["onboard:done", "onboard:refused", "unlock:done", "unlock:refused",
+REQUIRED_LABELS = {t: ["echo:long:onboard:SGX", "echo:long:onboard:Ledger", "echo:long:unlock:SGX", "echo:short:onboard:SGX", "mistyped:1", "mistyped:3", "mistyped:5", "onboard:done", "onboard:refused", "unlock:done", "unlock:refused",
                        "unlock:wrong-pin", "changepin:done", "changepin:refused",
                        "pubkeys:written", "pubkeys:refused", "plat:Ledger", "plat:SGX",
                        "unlock:done-with-typed-pin", "onboard:decided",
